@@ -93,6 +93,29 @@ static void scenario() {
             auto ids = gated(1, initext, [&](int) { Sq.try_put(1); Sq.try_put(0); });
             vf_window(1); vf_gate_open(); Sq.try_put(3); Sq.try_put(2); g.wait_for_all(); join_all(ids); g.wait_for_all(); quiet = true; vf_window(0);
             if (f.order.size() != 4) vf_fail("sequencer_node forwarded %zu of 4 items", f.order.size()); for (int i = 0; i < 4; i++) if (f.order[i] != i) vf_fail("sequencer_node forwarded item %d at position %d", f.order[i], i); }
+        else if (streq(k, "cont2")) {   // continue_node with two predecessors signalled from two threads: one body per complete round of signals
+            broadcast_node<continue_msg> A(g), B(g); int runs = 0; continue_node<continue_msg> C(g, [&](const continue_msg&) { runs++; enter(f, runs); leave(f); return continue_msg(); }); make_edge(A, C); make_edge(B, C);
+            auto ids = gated(1, initext, [&](int) { B.try_put(continue_msg()); B.try_put(continue_msg()); });
+            vf_window(1); vf_gate_open(); A.try_put(continue_msg()); A.try_put(continue_msg()); join_all(ids); g.wait_for_all(); quiet = true; vf_window(0);
+            if (runs != 2) vf_fail("continue_node with two predecessors ran %d times for two complete rounds of signals", runs); }
+        else if (streq(k, "mfn")) {   // multifunction_node (serial, queueing) fed by two threads, routing to two ports
+            using MF = multifunction_node<int, std::tuple<int, int>>; std::vector<int> even, odd;
+            MF M(g, serial, [&](const int& v, MF::output_ports_type& ports) { enter(f, v); if (v % 2 == 0) std::get<0>(ports).try_put(v); else std::get<1>(ports).try_put(v); leave(f); });
+            function_node<int, continue_msg> E(g, serial, [&](int v) { even.push_back(v); return continue_msg(); }), O(g, serial, [&](int v) { odd.push_back(v); return continue_msg(); }); make_edge(output_port<0>(M), E); make_edge(output_port<1>(M), O);
+            auto ids = gated(1, initext, [&](int) { if (!M.try_put(1) || !M.try_put(2)) vf_fail("queueing multifunction_node rejected"); });
+            vf_window(1); vf_gate_open(); if (!M.try_put(3) || !M.try_put(4)) vf_fail("queueing multifunction_node rejected"); join_all(ids); g.wait_for_all(); quiet = true; vf_window(0);
+            acc = {1, 2, 3, 4}; once(f, acc); std::sort(even.begin(), even.end()); std::sort(odd.begin(), odd.end()); if (even != std::vector<int>{2, 4} || odd != std::vector<int>{1, 3}) vf_fail("multifunction_node ports received %zu even and %zu odd messages", even.size(), odd.size()); }
+        else if (streq(k, "bcast")) {   // broadcast_node put from two threads: every successor gets every message once
+            broadcast_node<int> Bn(g); s.limit = 0; f.limit = 0;
+            function_node<int, continue_msg> F1(g, unlimited, [&](int v) { enter(f, v); leave(f); return continue_msg(); }), F2(g, serial, [&](int v) { enter(s, v); leave(s); return continue_msg(); }); make_edge(Bn, F1); make_edge(Bn, F2);
+            auto ids = gated(1, initext, [&](int) { Bn.try_put(1); Bn.try_put(2); });
+            vf_window(1); vf_gate_open(); Bn.try_put(3); join_all(ids); g.wait_for_all(); quiet = true; vf_window(0); acc = {1, 2, 3}; once(f, acc); once(s, acc); }
+        else if (streq(k, "inputn")) {   // input_node in front of a rejecting serial node while another thread puts into the same node
+            int next = 0; input_node<int> In(g, [&](tbb::flow_control& fc) -> int { if (next == 3) { fc.stop(); return 0; } return 100 + next++; });
+            function_node<int, continue_msg, rejecting> F(g, serial, [&](int v) { enter(f, v); leave(f); return continue_msg(); }); make_edge(In, F); bool ok = false;
+            auto ids = gated(1, initext, [&](int) { ok = F.try_put(7); });
+            vf_window(1); vf_gate_open(); In.activate(); join_all(ids); g.wait_for_all(); quiet = true; vf_window(0);
+            acc = {100, 101, 102}; if (ok) acc.insert(7); else rejected++; once(f, acc); }
         else if (streq(k, "wonce") || streq(k, "owrite")) {   // write_once_node / overwrite_node written by two threads at once, one successor attached before and one after
             bool once = streq(k, "wonce"); write_once_node<int> wo(g); overwrite_node<int> ow(g); std::vector<int> got1, got2;
             function_node<int, continue_msg> S1(g, serial, [&](int v) { got1.push_back(v); vf_point(); return continue_msg(); }), S2(g, serial, [&](int v) { got2.push_back(v); vf_point(); return continue_msg(); });
